@@ -102,6 +102,20 @@ T = {
  'C11-m2': ('C11', 'Shuffle.seed becomes an uncached property: report() reads the clock a second time, the printed seed is not the one used',
             '--shuffle without --shuffle-seed, then a re-run / --list-tests with the reported seed',
             'C11 quick: C11:seed-not-reproducing|rerun-of-noseed', 'caught at once; patch.diff is rebased onto fix 2214b10 (same lines), patch.orig.diff is the agent\'s patch against fae7978'),
+ 'C14-m1': ('C14', 'find_test_files_ skips a search path "already covered" by an earlier walk; the helper mirrors only the identifier / IGNORE_FOLDERS pruning, not --ignore_dir',
+            'nested search paths where the route from the outer to the inner one passes an identifier-named directory that is in --ignore_dir (or CVS / _darcs), outer path given first',
+            'C14 quick: C14:missing',
+            'MISSED at first (the only nested root was sub/, reachable from the outer walk); caught after nested roots below --ignore_dir / CVS / non-identifier directories were added'),
+ 'C14-m2': ('C14', 'find_test_files_: sorted(root2ext.values()) replaced by insertion order of the dict (filled by two loops: file-pattern matches first, tests-pattern matches second)',
+            'a tests package that also contains a module matching the tests pattern but not the file pattern and sorting earlier (tests/ftests.py next to test_*.py with --tests-pattern ^f?tests$)',
+            'C14 quick: C14:order', 'caught at once'),
+ 'C15-m1': ('C15', 'remove_stale_bytecode tests `file[:-1] in sources` where sources is a generator (exhausted by the first miss)',
+            'a directory with an orphan followed (in sorted order) by compiled files that do have their source; or x.py + x.pyc + x.pyo',
+            'C15 quick: C15:unsafe-delete', 'caught at once'),
+ 'C15-m2': ('C15', 'remove_stale_bytecode sorts the test paths and skips a path that startswith() an already scanned one (no os.sep)',
+            'two search paths of which one\'s spelling extends the other\'s (lib and lib_extra), orphan in the longer one',
+            'C15 quick: C15:orphan-kept',
+            'MISSED at first (sibling roots were pkg / my-dir); caught after the root lists {pkg, pkg_extra} in both orders were added'),
 }
 
 
